@@ -237,6 +237,11 @@ def run(ctx, chk):
     B_ = O.Balance(prog, eff, cache_, N_)
     subjects = builders + ["_cbor_builder_append", "cbor_load"]
     check_balance(chk, "C05.nothing-left", prog, eff, cache_, N_, B_, tables.constructors(prog, eff), fnames=subjects, floor=20)
+    from props.c04 import check_covered
+    chk.rule("C05.nothing-left-covered", "the references a partially built container holds are all within the range its release "
+                                         "walks: a slot that receives a counted reference lies below the element count when the "
+                                         "writing function returns (else a failed load leaks the pending element)")
+    check_covered(chk, "C05.nothing-left-covered", prog, eff, cache_)
     chk.exhaustive = True
 
 
